@@ -138,7 +138,9 @@ impl SchemaConverter {
             }
         }
         // Has `anyOf` but is not object-like (union of types)
-        if schema.get("anyOf").is_some() && schema.get("properties").is_none() {
+        if schema.get("anyOf").and_then(|v| v.as_array()).is_some()
+            && schema.get("properties").is_none()
+        {
             return true;
         }
         false
@@ -174,7 +176,9 @@ impl SchemaConverter {
                 // oneOf with mixed types → alias with type variants
                 self.emit_one_of_type_alias(walker, emitter, name, one_of);
             }
-        } else if schema.get("anyOf").is_some() && schema.get("properties").is_none() {
+        } else if schema.get("anyOf").and_then(|v| v.as_array()).is_some()
+            && schema.get("properties").is_none()
+        {
             if let Some(desc) = schema.get("description").and_then(|v| v.as_str()) {
                 emitter.write_doc_comment(&sanitize_description(desc));
             }
@@ -859,6 +863,21 @@ mod tests {
             "---@field a string?\n--- \\[optional] second\n--- - item\n---@field b string?\n"
         ));
         assert!(output.contains("--- \\in seconds\n---@field c string?\n"));
+    }
+
+    #[test]
+    fn test_malformed_any_of_is_still_declared() {
+        let schema = json!({
+            "title": "Root",
+            "type": "object",
+            "properties": {},
+            "$defs": {
+                "Broken": { "anyOf": "not a list", "type": "string" }
+            }
+        });
+
+        let output = converter().convert(&schema).annotation_text;
+        assert!(output.contains("---@alias schema.Broken\n---| string\n"));
     }
 
     #[test]
